@@ -117,6 +117,7 @@ pub fn worker_main(prop: &'static dyn Prop, worker_id: usize, jail: Option<PathB
     // load the shared SDK registry on this (main) thread, so that no run's thread pays for it and
     // every run starts from the same per-thread hash-key counter
     let _ = crate::props::gen::sdk_commands();
+    let _ = crate::props::gen::script_command_names();
     let env = Arc::new(WorkerEnv {
         worker_id,
         jail_root,
